@@ -473,7 +473,13 @@ pub fn run(run: &mut Run) {
             let s = strategy(100_001).prop_map(|mut c| {
                 // stretch both samples (and the positive one) to 100 001 … 100 400 observations by cycling
                 for smp in [&mut c.a, &mut c.b, &mut c.p] {
-                    let base = smp.data.clone();
+                    let mut base = smp.data.clone();
+                    // a sample scaled to the top of the range was scaled for its own length: make room for the longer one
+                    if smp.shape.ends_with("@upper-edge") {
+                        for x in base.iter_mut() {
+                            *x = crate::fl::X(x.0 * crate::fl::pow2(-12));
+                        }
+                    }
                     let want = 100_001 + (base.len() % 400);
                     smp.data = (0..want).map(|i| base[i % base.len()]).collect();
                 }
